@@ -16,7 +16,8 @@ def build(reg, cfg=None):
     reg.add(M.delete_face_contract(PROP))
     reg.add(M.add_face_contract(PROP))
     reg.add(M.split_edge_contract(PROP))
-    reg.add(M.split_edge_contract(PROP, full=True))
+    # split_edge(topology) - the full callee contracts with their preconditions at every call site - is kept in meshops.py but not
+    # registered: 8 of its 209 obligations stayed undecided within the thorough budgets (see DESIGN 10.4)
     reg.default_havoc = '*'
     reg.add(M.merge_edge_contract(PROP))
     SETKEYS = ['sset.member', 'set.size'] + ['vec.data.edge.' + l for l in M.EDGE_LEAVES]
@@ -39,15 +40,14 @@ EXPLANATION = ("Mesh editing primitives under contract over a full model of std:
                "faces). local_mesh_refiner::split_edge (physics and references): new node at the midpoint, momentum of {a,b,e} afterwards = momentum "
                "of {a,b} before (2/3, 2/3, 1/3+1/3), no surviving node moves, momenta of other nodes untouched, the four requested triangles join "
                "the new node to the old ones and are wound like the triangle they replace (lemma: half triangles keep the area-vector direction), "
-               "no reference into the node / face vectors is used after the vector may have reallocated, all indexings in bounds. split_edge "
-               "(topology, thorough tier): the callee preconditions at every call site, type labels inherited, split edge gone, four new edges with "
-               "two faces. merge_edge (physics): merged node at the midpoint with the summed momentum, both ends deleted, no other node touched. "
+               "no reference into the node / face vectors is used after the vector may have reallocated, all indexings in bounds, each new "
+               "face is given the label of the face it replaces. merge_edge (physics): merged node at the midpoint with the summed momentum, both ends deleted, no other node touched. "
                "refine_mesh loop body: splits only if l^2 > l_max^2, merges only if l^2 < l_min^2 and can_be_merged, never both, the operation "
                "counter counts operations, an edge inside the band leaves everything as it is, without an operation the waiting set shrinks by one.")
 ASSUMPTIONS = ["DYNAMIC_MODEL_INDEX = 0 (momentum formulation); exact reals",
                "the local configuration handed to split_edge (stored manifold edge, its two used faces with distinct opposite nodes, free-slot queue invariants, stored edges match their keys) - the data invariant of C01, required here",
                "merge_edge: cell::replace_node resets only the replaced node and does not resize the node list; cell::delete_face writes what its own contract lists (their call-site preconditions inside merge_edge are not discharged: topology of the collapse is not under contract)",
-               "quick tier: add_face / delete_face as callees of split_edge(physics) are used through their frame and result range; their call-site preconditions are discharged by split_edge(topology) in the thorough tier",
+               "add_face / delete_face as callees of split_edge are used through views (frame, result range, 'the returned slot was unused'); their preconditions at the call sites inside split_edge are NOT discharged (the attempt - split_edge(topology) in meshops.py - left 8 of 209 obligations undecided and is not registered)",
                "std::set<edge> as modelled in models.py (keyed by the sorted node pair: the Cantor hash is injective on pairs below 2^26)"]
 UNVERIFIED = ["termination of refine_mesh: the counter bound 'iteration < number of edges' moves with the edge count; each split halves an edge, so the pass ends for finite positions - a geometric argument not made here",
               "volume / area preservation of a split (follows from: midpoint on the edge, windings kept - stated, the summation over the surface is not)",
